@@ -62,6 +62,27 @@ theorem addReader_frame (t t' : Tbl) (bs : Option Nat) (cs : List ColDef) (rows 
         · simp only [scanCol]
           exact (feed_frame _ _ _ _ fl.id (fresh_not_mem_mkFlds t cs hfl) _ _ _ hfeed).1
 
+theorem mergeCols_frame (t t' : Tbl) (c : String) (cs : List ColDef) (rows : List Row)
+    (h : mergeCols t c cs rows = .ok t') :
+    liveCount t' = liveCount t ∧ ∀ fl ∈ t.schema, fl ∈ t'.schema ∧ scanCol t' fl.id = scanCol t fl.id := by
+  simp only [mergeCols] at h
+  split at h
+  · cases h
+  · split at h
+    · cases h
+    · split at h
+      · cases h
+      · split at h
+        · cases h
+        · cases h
+          refine ⟨?_, fun fl hfl => ⟨List.mem_append_left _ hfl, ?_⟩⟩
+          · simp only [liveCount]
+            exact live_map _ _ (fun _ _ => ⟨rfl, rfl⟩)
+          · simp only [scanCol]
+            refine flatMap_liveCol_map fl.id _ _ (keeps_addFile fl.id _ _ ?_)
+            intro f _ hm
+            exact fresh_not_mem_mkFlds t _ hfl (zip_ids_subset hm)
+
 theorem dropCols_frame (t t' : Tbl) (cs : List String) (h : dropCols t cs = .ok t') :
     liveCount t' = liveCount t ∧
       ∀ fl ∈ t.schema, fl.name ∉ cs → fl ∈ t'.schema ∧ scanCol t' fl.id = scanCol t fl.id := by
@@ -142,5 +163,8 @@ theorem evolve_frame_core (t t' : Tbl) (op : Op) (hn : (t.schema.map (·.id)).No
     exact ⟨h1, fun fl hfl _ => h2 fl hfl⟩
   | alter alts => exact alter_frame t t' alts hn h
   | drop cs => exact dropCols_frame t t' cs h
+  | merge c cs rows =>
+    obtain ⟨h1, h2⟩ := mergeCols_frame t t' c cs rows h
+    exact ⟨h1, fun fl hfl _ => h2 fl hfl⟩
 
 end LanceModel.C14
